@@ -84,6 +84,8 @@ def main():
                 p = sh([PY, '-W', 'ignore', '-m', 'vf.run', prop, '--tier', a.tier], cwd=ROOT, env=env)
                 viol = [l for l in p.stdout.splitlines() if l.startswith('violation:')]
                 status = {0: 'MISSED', 1: 'caught', 2: 'HARNESS'}.get(p.returncode, 'rc=%d' % p.returncode)
+                if status == 'caught' and 'VIOLATION property=' not in p.stdout:
+                    status = 'HARNESS'
                 report['checks'].append({'property': prop, 'tier': a.tier, 'seed': int(seed), 'status': status, 'wall_s': round(time.time() - t0, 1), 'first_violation': viol[0][:300] if viol else None})
                 print('%-8s %s seed=%s %5.1fs %s' % (status, prop, seed, time.time() - t0, viol[0][:220] if viol else p.stdout.strip().splitlines()[-1][:200] if p.stdout.strip() else p.stderr[-300:]))
     finally:
